@@ -118,16 +118,6 @@ Proof.
 Qed.
 Lemma nk_scan k : In k K -> find_ts (rpath k) = take 17 (k_stamp k).
 Proof. intros H. key_facts k H. apply String.eqb_eq; assumption. Qed.
-Lemma skey_eqb_eq a b : skey_eqb a b = true <-> a = b.
-Proof.
-  unfold skey_eqb. split.
-  - intros H. andb_all.
-    repeat match goal with X : String.eqb _ _ = true |- _ => apply String.eqb_eq in X | X : Bool.eqb _ _ = true |- _ => apply Bool.eqb_prop in X end.
-    destruct a, b; simpl in *; subst; auto.
-  - intros ->. rewrite !String.eqb_refl, Bool.eqb_reflx. auto.
-Qed.
-Lemma skey_eqb_refl a : skey_eqb a a = true.
-Proof. apply skey_eqb_eq; auto. Qed.
 Lemma nk_inj k k' : In k K -> In k' K -> rname k = rname k' -> k_dag k = k_dag k' -> k = k'.
 Proof.
   intros H H' E1 E2. key_facts k H.
@@ -470,13 +460,6 @@ Definition wr_in (w : option swriter) : Prop :=
   end.
 Definition state_in (h : sstate) : Prop :=
   keys_in (sst h) /\ dirs_nodup (sst h) /\ cache_in (scch h) /\ wr_in (swr h).
-
-Lemma skey_eqb_sym a b : skey_eqb a b = skey_eqb b a.
-Proof.
-  destruct (skey_eqb a b) eqn:E.
-  - apply skey_eqb_eq in E. subst. symmetry. apply skey_eqb_refl.
-  - destruct (skey_eqb b a) eqn:E2; auto. apply skey_eqb_eq in E2. subst. rewrite skey_eqb_refl in E. discriminate.
-Qed.
 
 Lemma sfind_in_key l req k p : sfind_in rpath l req = SFFound k p -> exists e, In e l /\ fst e = k.
 Proof.
